@@ -3,8 +3,8 @@ bounded TLC universes do not reach (>= 4 children, depth >= 3, shared sub-propos
 leaves with negative lower bounds, values beyond the attainable range, explicit and generated ids)."""
 import random
 
-BOOL = [("a", 0, 1), ("A", 0, 1), ("b", 0, 1), ("c", 0, 1), ("Z", 0, 1), ("e", 0, 1), ("f", 0, 1)]
-INTS = [("t", -1, 2), ("u", 0, 2), ("w", -2, 1), ("x", 1, 3), ("z", -3, -1)]
+BOOL = [(i, 0, 1) for i in ("a", "A", "b", "c", "Z", "e", "f", "g", "h", "i", "k", "l", "m", "p", "q", "r")]   # generated ids hash these: many names = many sort orders
+INTS = [("t", -1, 2), ("u", 0, 2), ("w", -2, 1), ("x", 1, 3), ("z", -3, -1), ("v", -2, 0), ("n", -1, 0)]
 DEGEN = [("k", 1, 1), ("o", 0, 0)]          # boolean leaves with degenerate bounds
 WIDE = [("W", -32768, 32767), ("Y", 0, 20000), ("V", -20000, 5), ("X", -40000, 40000)]   # 16-bit ranges and beyond
 
